@@ -391,15 +391,18 @@ def _tiers(c, case):
             objs2 = [vol] + [fdtdx.UniformMaterialObject(name=f"O{i}", material=fdtdx.Material(**{prop: tuple(vals[i])}), partial_grid_shape=(1, 1, 1)) for i in range(nobj)]
             got = bool(getattr(ObjectContainer(object_list=objs2, volume_idx=0), pname))
             T = [np.array(v).reshape(3, 3) for v in vals]
+            offzero = all(not np.any(t - np.diag(np.diag(t))) for t in T)
+            relclose = lambda x, y: abs(x - y) <= 1e-8 * max(abs(x), abs(y))  # noqa: E731
             if "isotropic" in pname:
                 exact = all(tier_of(t) == 1 for t in T)
+                loose = offzero and all(relclose(t[0, 0], t[1, 1]) and relclose(t[1, 1], t[2, 2]) for t in T)
             elif "diagonally" in pname:
-                exact = all(tier_of(t) <= 3 for t in T)
+                exact = loose = offzero
             elif pname == "all_objects_non_magnetic":
                 exact = all(np.array_equal(t, np.eye(3)) for t in T)
+                loose = offzero and all(relclose(t[i, i], 1.0) for t in T for i in range(3))
             else:
-                exact = all(not np.any(t) for t in T)
-            loose = exact or all(tier_of(np.round(t / max(1e-300, np.max(np.abs(t))), 7)) == (1 if "isotropic" in pname else tier_of(t)) for t in T) and "isotropic" in pname
+                exact = loose = all(not np.any(t) for t in T)
             violated = (exact and not got) or (got and not loose)
             return violated, dict(predicate=pname, tensors=vals, got=got, needed=exact)
 
